@@ -9,10 +9,16 @@ import ScrapliProps.C18HeapLemmas
   satisfying the decidable shape predicate `Tables.ok`, and `generated_tables_ok` /
   `forwarding_complete` decide that predicate on the tables GENERATED from scrapli/factory.py.
 
-  Isolation half: quantifiers are every separated initial state (in particular the one built from the
-  GENERATED platform definitions), EVERY list of operations (any interleaving, any number of
-  connections, re-construction of a slot included) and every class table whose constructors copy
-  (`Copies`, decided on the GENERATED copy modes of the ten platform drivers).
+  Isolation half (PARTIAL, see `isolation_partial` / `isolation_full_refuted`): quantifiers are every
+  separated initial state (in particular the one built from the GENERATED platform definitions), EVERY
+  list over the SIX table operations of `Op` (construct, register_configuration_session, in-place level
+  edit, in-place failed_when_contains edit, del level, assign a new level object; any interleaving, any
+  number of connections, re-construction of a slot included) and every class table whose constructors
+  copy (`Copies`, decided on the GENERATED copy modes of the ten platform drivers).  Observables are the
+  `privilege_levels` / `failed_when_contains` tables of the platform definitions and of the connections.
+  Not in the model: constructions with user-supplied tables, non-table attributes (transport options,
+  timeouts, prompt pattern: watched by the check's oracle only), and `_current_priv_level`, which is ONE
+  module-level object for all connections: for it the full statement is refuted (`isolation_full_refuted`).
 -/
 namespace Scrapli.Factory
 open Scrapli.Gen.Factory
@@ -56,12 +62,57 @@ theorem platform_maps_consistent :
     ((coreMapSync ++ coreMapAsync).all fun e => ctors.any (fun c => c.cls == e.2)) = true := by
   decide +kernel
 
+/-- below the platform driver (generated from (Async)NetworkDriver / (Async)GenericDriver `__init__`): every
+    platform driver has exactly the parameters of its NetworkDriver base; NetworkDriver hands every keyword to
+    `super().__init__` under its own name, all of them parameters of GenericDriver, and every NetworkDriver
+    parameter is either forwarded or stored on `self`; GenericDriver hands every one of its parameters on under
+    its own name (to `Driver.__init__(**kwargs)`).  Sync and async. -/
+theorem lower_layers_forward :
+    (ctors.all fun c =>
+      sameSet c.sig.names (if coreMapAsync.any (fun e => e.2 == c.cls) then sigAsyncNetworkDriver else sigNetworkDriver).names) = true ∧
+    (superNetworkDriver.all fun e => e.1 == e.2 && sigGenericDriver.names.contains e.1 && sigNetworkDriver.names.contains e.2) = true ∧
+    (superAsyncNetworkDriver.all fun e => e.1 == e.2 && sigAsyncGenericDriver.names.contains e.1 && sigAsyncNetworkDriver.names.contains e.2) = true ∧
+    (sigNetworkDriver.names.all fun n => (superNetworkDriver.map (·.1)).contains n || (storesNetworkDriver.map (·.2)).any (fun v => v == n || v == n ++ " or []")) = true ∧
+    (sigAsyncNetworkDriver.names.all fun n => (superAsyncNetworkDriver.map (·.1)).contains n || (storesAsyncNetworkDriver.map (·.2)).any (fun v => v == n || v == n ++ " or []")) = true ∧
+    (superGenericDriver.all (fun e => e.1 == e.2) && sameSet (superGenericDriver.map (·.1)) sigGenericDriver.names) = true ∧
+    (superAsyncGenericDriver.all (fun e => e.1 == e.2) && sameSet (superAsyncGenericDriver.map (·.1)) sigAsyncGenericDriver.names) = true := by
+  decide +kernel
+
+/-- `NetworkDriver.__init__` / `AsyncNetworkDriver.__init__` keep the tables they are handed BY REFERENCE
+    (`self.privilege_levels = privilege_levels`, `self.failed_when_contains = failed_when_contains or []`):
+    this is why the object a platform driver's `deepcopy(PRIVS)` produces is the connection's table, and why a
+    community connection's tables are exactly the factory's deep copy (`Heap.communityClass`). -/
+theorem network_stores_by_reference :
+    storesNetworkDriver.lookup "privilege_levels" = some "privilege_levels" ∧
+    storesNetworkDriver.lookup "failed_when_contains" = some "failed_when_contains or []" ∧
+    storesAsyncNetworkDriver.lookup "privilege_levels" = some "privilege_levels" ∧
+    storesAsyncNetworkDriver.lookup "failed_when_contains" = some "failed_when_contains or []" := by
+  decide +kernel
+
+/-- the constructor parameters for which `None` through the factory (= not supplied = the driver's own
+    default) differs from a direct call with an explicit `None`: forwarded parameters whose constructor
+    default is a value other than `None` -/
+def noneMeansDriverDefault (c : CtorInfo) : List String :=
+  (c.sig.params.filter fun p =>
+    (forwardedNames false).contains p.name && !(p.dflt == some none) && !(p.dflt == none)).map (·.name)
+
+/-- … it is the same list for all ten platform drivers, and it contains (at least) the parameters named here -/
+theorem none_means_driver_default :
+    (ctors.all fun c => sameSet (noneMeansDriverDefault c) ((ctors.head?.map noneMeansDriverDefault).getD [])) = true ∧
+    (ctors.all fun c => ["auth_strict_key", "transport", "timeout_socket", "timeout_ops", "comms_return_char",
+        "ssh_config_file", "channel_log", "auth_username"].all (noneMeansDriverDefault c).contains) = true := by
+  decide +kernel
+
 /-! ## factory = direct construction -/
 
 /-- **factory_eq_direct** (core platforms).  For every keyword set with a `platform` naming a core
     platform, a `host`, and a transport the factory does not reject: the factory instantiates the class
     the platform map names, and the keyword arguments that class receives are exactly the supplied
-    ones — under every key `k`, the value the user passed (`supplied`). -/
+    ones — under every key `k`, the value the user passed (`supplied`).
+    Reading of "the same kwargs": a FACTORY PARAMETER passed as `None` counts as not supplied (all optional
+    factory parameters default to `None`, decided in `Tables.ok`), so `Scrapli(k=None)` is equated with
+    `Driver()` and NOT with `Driver(k=None)`; the two differ exactly for the constructor parameters whose own
+    default is not `None` (`noneMeansDriverDefault`, e.g. `auth_strict_key`, `transport`, `timeout_socket`). -/
 theorem factory_eq_direct (t : Tables) (hok : t.ok = true) (async : Bool) (env : Env) (call : Kw)
     (platform cls : String) (hp : get call "platform" = some (some (.str platform)))
     (hh : (get call "host").isSome = true)
@@ -333,12 +384,17 @@ theorem constructors_copy_community (names : List String) : Copies (coreClasses 
   · obtain ⟨n, _, rfl⟩ := List.mem_map.mp h
     simp [communityClass, constructors_copy.2]
 
-/-- **isolation** (general form).  From any separated state, after ANY list of operations:
+/-- **isolation, partial** (general form; partial = the six table operations of `Op` and the table
+    observables only, see the file header; the full statement including `_current_priv_level` is
+    `isolation_full_refuted`).  `step` is total: an operation that does not apply (unknown class name — e.g. a
+    community platform with a custom driver class that is not in the class table —, missing definition,
+    missing connection, class without sessions, duplicate session name) leaves the state unchanged, for
+    those the statement says nothing interesting.  From any separated state, after ANY list of operations:
     (1) the snapshot of every platform definition is what it was;
     (2) the snapshot of every connection `j` is what it would be had only the operations addressed to
         `j` been executed — constructing, re-constructing or mutating any other connection, in any
         interleaving, changes nothing `j` can observe. -/
-theorem isolation (classes : List ClassInfo) (hcl : Copies classes) (s0 : St) (hi : Inv s0) (ops : List Op) :
+theorem isolation_partial (classes : List ClassInfo) (hcl : Copies classes) (s0 : St) (hi : Inv s0) (ops : List Op) :
     (view (run classes s0 ops)).defs = (view s0).defs ∧
     ∀ j, (view (run classes s0 ops)).conns.lookup j
           = (view (run classes s0 (ops.filter (fun op => op.conn == j)))).conns.lookup j := by
@@ -349,10 +405,10 @@ theorem isolation (classes : List ClassInfo) (hcl : Copies classes) (s0 : St) (h
   rw [h1, h2]
   exact runV_filter classes ops j _ _ rfl rfl
 
-/-- **isolation** for the generated platform definitions and constructors, with any community
+/-- **isolation, partial** for the generated platform definitions and constructors, with any community
     platforms (`extra` definitions, built through the factory) added: the platform definitions stay
     exactly the generated tables forever. -/
-theorem isolation_generated (extra : List (String × TablesV)) (ops : List Op) :
+theorem isolation_generated_partial (extra : List (String × TablesV)) (ops : List Op) :
     let classes := coreClasses ++ (extra.map (·.1)).map communityClass
     let s0 := mkInit (coreDefs ++ extra)
     (view (run classes s0 ops)).defs = coreDefs ++ extra ∧
@@ -360,15 +416,15 @@ theorem isolation_generated (extra : List (String × TablesV)) (ops : List Op) :
           = (view (run classes s0 (ops.filter (fun op => op.conn == j)))).conns.lookup j := by
   intro classes s0
   obtain ⟨hi, hv⟩ := mkInit_inv (coreDefs ++ extra)
-  obtain ⟨h1, h2⟩ := isolation classes (constructors_copy_community _) s0 hi ops
+  obtain ⟨h1, h2⟩ := isolation_partial classes (constructors_copy_community _) s0 hi ops
   exact ⟨by rw [h1, hv], h2⟩
 
 /-- operations on other connections never change connection `j` (frame form of the same fact) -/
 theorem isolation_frame (classes : List ClassInfo) (hcl : Copies classes) (s0 : St) (hi : Inv s0)
     (pre ops : List Op) (j : Nat) (hops : ∀ op ∈ ops, op.conn ≠ j) :
     (view (run classes s0 (pre ++ ops))).conns.lookup j = (view (run classes s0 pre)).conns.lookup j := by
-  obtain ⟨_, h2⟩ := isolation classes hcl s0 hi (pre ++ ops)
-  obtain ⟨_, h3⟩ := isolation classes hcl s0 hi pre
+  obtain ⟨_, h2⟩ := isolation_partial classes hcl s0 hi (pre ++ ops)
+  obtain ⟨_, h3⟩ := isolation_partial classes hcl s0 hi pre
   rw [h2 j, h3 j]
   have : (pre ++ ops).filter (fun op => op.conn == j) = pre.filter (fun op => op.conn == j) := by
     rw [List.filter_append]
@@ -424,6 +480,62 @@ theorem isolation_needs_deepcopy :
     (view (run (exClass .deep .shallow) (mkInit exDefs) exOps)).conns.lookup 0
       = some ⟨"D", ⟨[("exec", ⟨"X", "exec", "", "", "", false, "", ["y"]⟩),
                      ("s1", ⟨"^s1$", "s1", "exec", "", "", false, "", []⟩)], ["z"]⟩⟩ := by
+  decide +kernel
+
+/-- `delLevel` / `addLevel` inside the quantifier: on the generated tables a deleted and a newly assigned level
+    show in connection 0 only; and the model tells "assign a NEW object" from "edit in place": under a shallow
+    copy of PRIVS assigning a new level object leaves the definition alone, editing in place does not -/
+example :
+    ((view (run coreClasses (mkInit coreDefs)
+      [.construct 0 "JunosDriver", .construct 1 "JunosDriver", .delLevel 0 "shell", .addLevel 0 "exec" ⟨"^N$", "exec", "", "", "", false, "", []⟩,
+       .addLevel 0 "brand-new" ⟨"^B$", "brand-new", "exec", "", "", false, "", []⟩])).conns.lookup 0).map
+        (fun c => (c.v.privs.map (·.1), (c.v.privs.lookup "exec").map (·.pattern)))
+      = some (["exec", "configuration", "configuration_exclusive", "configuration_private", "root_shell", "brand-new"], some "^N$") ∧
+    (view (run coreClasses (mkInit coreDefs)
+      [.construct 0 "JunosDriver", .construct 1 "JunosDriver", .delLevel 0 "shell", .addLevel 0 "exec" ⟨"^N$", "exec", "", "", "", false, "", []⟩])).defs = coreDefs ∧
+    ((view (run coreClasses (mkInit coreDefs)
+      [.construct 0 "JunosDriver", .construct 1 "JunosDriver", .delLevel 0 "shell", .addLevel 0 "exec" ⟨"^N$", "exec", "", "", "", false, "", []⟩])).conns.lookup 1).map (·.v)
+      = coreDefs.lookup "juniper_junos" ∧
+    (view (run (exClass .shallow .shallow) (mkInit exDefs) [.construct 0 "D", .addLevel 0 "exec" ⟨"X", "exec", "", "", "", false, "", []⟩])).defs = exDefs ∧
+    (view (run (exClass .shallow .shallow) (mkInit exDefs) [.construct 0 "D", .editLevel 0 "exec" ⟨"X", "exec", "", "", "", false, "", []⟩])).defs ≠ exDefs ∧
+    (view (run (exClass .alias .shallow) (mkInit exDefs) [.construct 0 "D", .delLevel 0 "exec"])).defs ≠ exDefs := by
+  decide +kernel
+
+/-- **isolation, full statement, REFUTED** for the code as it is: with `_current_priv_level` among the
+    observables (model extension `StX`: every constructed connection's `_current_priv_level` is the ONE
+    module-level `DUMMY_PRIV_LEVEL` object, base_driver.py:75/94/362/416) it is false that operations addressed
+    to other connections leave connection `j` and the module-level object unchanged.  Witness: construct an
+    IOS-XE and an EOS connection, edit the level object connection 0's `_current_priv_level` refers to; connection
+    1 and the module's dummy see the edit.  (Finding C18-shared-dummy-priv-level of the check; scrapli itself never writes through that
+    object, the edit needs the private attribute.) -/
+theorem isolation_full_refuted :
+    ¬ (∀ (pre ops : List OpX) (j : Nat), (∀ op ∈ ops, op.conn ≠ j) →
+        viewCur (runX coreClasses (runX coreClasses (mkInitX coreDefs) pre) ops) j
+          = viewCur (runX coreClasses (mkInitX coreDefs) pre) j ∧
+        viewDummy (runX coreClasses (runX coreClasses (mkInitX coreDefs) pre) ops)
+          = viewDummy (runX coreClasses (mkInitX coreDefs) pre)) := by
+  intro h
+  have := h [.tbl (.construct 0 "IOSXEDriver"), .tbl (.construct 1 "EOSDriver")]
+    [.editCurrent 0 ⟨"zz", "DUMMY", "", "", "", false, "", ["x"]⟩] 1 (by decide)
+  revert this
+  decide +kernel
+
+/-- generated facts behind the extension: the class attribute `_current_priv_level = DUMMY_PRIV_LEVEL` exists
+    (so the aliasing `stepX` models is the code's), and nowhere in scrapli/ is anything stored through that object
+    (no attribute / item store, no mutating list call on it or its `not_contains`): the sharing cannot be
+    triggered by scrapli's own operations, only by user code reaching into the private attribute -/
+theorem dummy_level_shared_but_never_written : currentLevelIsSharedDummy = true ∧ dummyLevelWrittenAt = [] := by
+  decide
+
+/-- … while the table part of the same history is untouched (the partial theorem applies to it), and before
+    the edit both connections see the pristine dummy -/
+example :
+    viewCur (runX coreClasses (mkInitX coreDefs) [.tbl (.construct 0 "IOSXEDriver"), .tbl (.construct 1 "EOSDriver")]) 1
+      = some dummyLevel ∧
+    viewCur (runX coreClasses (mkInitX coreDefs) [.tbl (.construct 0 "IOSXEDriver"), .tbl (.construct 1 "EOSDriver"),
+      .editCurrent 0 ⟨"zz", "DUMMY", "", "", "", false, "", ["x"]⟩]) 1 = some ⟨"zz", "DUMMY", "", "", "", false, "", ["x"]⟩ ∧
+    (view (runX coreClasses (mkInitX coreDefs) [.tbl (.construct 0 "IOSXEDriver"), .tbl (.construct 1 "EOSDriver"),
+      .editCurrent 0 ⟨"zz", "DUMMY", "", "", "", false, "", ["x"]⟩]).base).defs = coreDefs := by
   decide +kernel
 
 /-- the generated class table and definitions are inside the quantifier of `isolation_generated`:
